@@ -85,6 +85,10 @@ def lineNumberFor (l : Link) (opAddr : Nat) : Option Nat :=
   | some (k, _) => if k ≤ (Gen.maxLineNumber : Int) then some k.toNat else none
   | none => none
 
+/-- `Link::has_line_at_end`: a program line starts at the very end of the code (it compiled to nothing) -/
+def hasLineAtEnd (l : Link) : Bool :=
+  l.symbols.any (fun p => 0 ≤ p.1 && p.1 ≤ (Gen.maxLineNumber : Int) && p.2.1 == l.ops.size)
+
 def readData (l : Link) : Link × Except Error Val :=
   match l.data[l.dataPos]? with
   | some v => ({ l with dataPos := l.dataPos + 1 }, .ok v)
